@@ -361,7 +361,15 @@ def run(F, rep):
                 sites.append(role(node_if, 'then'))
         if len(sites) != 1:
             raise AnalysisBroken('analyseNode: branch for <%s> vanished (%d)' % (tok, len(sites)))
-        raw = [c for c in walk(sites[0]) if c.get('k') == 'Call' and c.get('mc') and c.get('fn') in ('firstChild', 'next') and render(receiver(c)).split('->')[0] == 'node' and 'parent()' not in render(c)]
+        def _from_node(c_):
+            root = render(receiver(c_)).split('->')[0].split('(')[0]
+            if root == 'node':
+                return True
+            for v_ in an.walk():      # a local that holds a child of the token (`auto valueNode = nonCommentChildNode(node, 0);`)
+                if v_.get('k') == 'Var' and v_.get('n') == root and v_.get('c') and any(x.get('k') == 'Ref' and x.get('n') == 'node' for x in walk(v_['c'][0])):
+                    return True
+            return False
+        raw = [c for c in walk(sites[0]) if c.get('k') == 'Call' and c.get('mc') and c.get('fn') in ('firstChild', 'next') and _from_node(c) and 'parent()' not in render(c)]
         good = [c for c in walk(sites[0]) if c.get('k') == 'Call' and c.get('fn') in ('nonCommentChildNode', 'mathmlChildNode')]
         n_v += 1
         rep.check(not raw and bool(good), 'C01.V1', 'analyser|' + tok, an.where(sites[0]), 'analyseNode reads the content of <%s> with %s: a leading comment is taken for the content' % (tok, sorted({render(c)[:40] for c in raw}) or 'no comment-skipping accessor'), 'comment-skipping accessor')
